@@ -278,7 +278,22 @@ def main(argv):
     if model:
         mlines = ["%s %s %s %s" % (pid, params, bodies, ths) for pid, kind, params, bodies, ths, small in progs
                   if small and kind == "P"]
+        # model-only cases: two workers whose local queues lie in different storage blocks; every submission precedes
+        # stop(), so no schedule of the model may end with an accepted task that never ran
+        mblk = ["mb0 2 8 1 1 0 1;- s0,W|J,X 0/1", "mb1 2 8 2 1 0 1.2;-;- s0,W,W|J,X 0/1", "mb2 2 8 1 1 0 1;-;3;- s0,s2,W|J,X 1/0"]
+        mlines = mlines + mblk
         mo = chk.run_cases(model, mlines, timeout=1800)
+        for mid in ("mb0", "mb1", "mb2"):
+            l = mo.pop(mid, "")
+            if "outcomes=" not in l:
+                chk.broke("harness", "model driver (block cases)", l[:300])
+                continue
+            bad = [o for o in l.split("outcomes=", 1)[1].split(";") if "norun= late=0" not in o or "STUCK" in o]
+            if bad and "trunc=true" not in l:
+                chk.violate("model-steal-overwrite", "the model (steal scan block by block, regenerated callback guard) admits a "
+                            "schedule in which an accepted task is taken from a local queue and never runs: %s -> %s"
+                            % ([m for m in mblk if m.startswith(mid)][0], bad[0]),
+                            {"level": "model", "line": [m for m in mblk if m.startswith(mid)][0], "outcome": bad[0]})
         for pid, l in mo.items():
             if "outcomes=" not in l:
                 chk.broke("harness", "model driver", l[:300])
